@@ -17,6 +17,11 @@ T = {
          "The filter decides from a 3-token window, so enumerating every stream of length <=3 over an alphabet that contains every omissible element (with/without attributes), look-alike names, foreign elements, void elements, text, whitespace, comments and doctype visits every decision it can make; longer streams over a reduced alphabet would expose state added by a change. Each removed token is checked against ref/optional_tags.py.",
          "ref/optional_tags.py (my transcription of the June-2020 WHATWG 'optional tags' section) is trusted; element names outside the alphabet behave like 'unknownx'; Characters tokens that begin with whitespace are outside the walker contract and not in the alphabet",
          "6/C13"),
+ "C17": ("model_checking",
+         "explicit-state BFS over walker-shaped token streams; product state = (reference element stack, trailing-whitespace flag, the real filter's `preserve` counter read from its suspended generator frame); every transition executes the real filter; oracle = reference transducer + pass-through + idempotence; flat exhaustive pass over arbitrary unbalanced streams for the pass-through clauses",
+         "All balanced-prefix token streams up to depth 5 (thorough 7) over 22 letters (7 element kinds incl. every preserve class and nesting, 12 text tokens covering all five whitespace characters and runs split across tokens, void tag, comment, attribute with whitespace) are explored up to state equivalence, with a one-step bisimulation check of the state key; each is compared with an independent reference transducer and re-filtered for idempotence.",
+         "the reference transducer encodes my reading of the statement (a maximal whitespace run is taken over adjacent text tokens); element names outside the alphabet are assumed to behave like div",
+         "6/C17"),
  "C18": ("exploration",
          "bounded exhaustive enumeration of inputs: all attribute sets <=K x all insertion orders x all short token contexts, real filter, set/sort/permutation oracle",
          "Every attribute set of up to 4 (thorough 6) keys drawn from a pool mixing None/string namespaces and equal local names is fed to the real filter in every insertion order, inside every context of neighbouring tokens; the oracle checks multiset equality, sortedness by (namespace or '', local) and permutation invariance. The filter has no state, so this is its whole decision domain up to the bound.",
